@@ -277,10 +277,6 @@ class ModeDReader(MeterReaderBase[DataReadout]):
         """
         readouts_received: list[DataReadout] = []
 
-        if len(self._buffer) > 8191:
-            self._is_int_hunt_mode = True
-            self._buffer.trim_buffer_to_flag_or_end()
-
         self._buffer.extend(data_chunk)
 
         if self._is_int_hunt_mode:
@@ -289,7 +285,7 @@ class ModeDReader(MeterReaderBase[DataReadout]):
         while True:
             line = self._buffer.pop()
             if line is None:
-                return readouts_received
+                break
 
             if self.is_in_hunt_mode:
                 if line[0] == START_CHARACTER_HEX and line.isascii():
@@ -306,6 +302,15 @@ class ModeDReader(MeterReaderBase[DataReadout]):
                     _LOGGER.debug("Readout received:\n%s", readout)
                     self._raw_data.clear()
                     self._is_int_hunt_mode = True
+
+        # Drop consumed lines, and give up a readout or line that never ends.
+        self._buffer.trim_buffer_to_current_position()
+        if len(self._raw_data) + len(self._buffer) > 8191:
+            self._raw_data.clear()
+            self._is_int_hunt_mode = True
+            self._buffer.clear()
+
+        return readouts_received
 
 
 class _ReaderBuffer:
@@ -333,6 +338,11 @@ class _ReaderBuffer:
     def extend(self, data_chunk: bytes) -> None:
         """Add bytes to buffer."""
         self._buffer.extend(data_chunk)
+
+    def clear(self) -> None:
+        """Remove all bytes from buffer."""
+        self._buffer.clear()
+        self._buffer_pos = 0
 
     def trim_buffer_to_current_position(self) -> None:
         """Trim buffer to current position."""
